@@ -1077,6 +1077,7 @@ func TestC17(t *testing.T) {
 		{"hand-pb-nobs", handF(handFileOpts{Width: 3, PBLeaves: true, NoBlockSize: true, LeafType: 2}, 600, 20)},
 		{"hand-pb-nobs-nofs", handF(handFileOpts{Width: 2, PBLeaves: true, NoBlockSize: true, NoFileSize: true, LeafType: 0}, 300, 10)},
 		{"hand-pb-sized", handF(handFileOpts{Width: 4, PBLeaves: true, LeafType: 2}, 800, 25)},
+		{"hand-pb-leaf-mtimes", handF(handFileOpts{Width: 4, PBLeaves: true, LeafType: 2, LeafMtimes: true}, 600, 25)},
 		{"built-w3-3level+nodereifier", builtFile(3, "size-16", 300)},
 		{"hand-pb-sized+nodereifier", handF(handFileOpts{Width: 4, PBLeaves: true, LeafType: 2}, 400, 25)},
 	}
